@@ -1,0 +1,54 @@
+//! Observation hooks for the external verification harness.
+//!
+//! Compiled only with the cargo feature `verif_hooks` (off by default). Nothing in this
+//! module changes what the crate computes: it re-exports internal functions so that they can
+//! be driven directly, and offers a thread-local recorder that the mask selection loop
+//! reports into. The recorder copies values out; it never feeds anything back.
+#![allow(missing_docs)]
+
+use std::cell::RefCell;
+
+pub use crate::hardcode::get_polynomial;
+pub use crate::polynomials::{division, structure};
+
+use crate::{Mask, QRCode};
+
+/// One candidate evaluated by the automatic mask selection.
+pub struct Candidate {
+    /// Mask pattern applied to this candidate
+    pub mask: Mask,
+    /// Score used by the selection loop to rank this candidate
+    pub score: u32,
+    /// Side of the candidate matrix
+    pub size: usize,
+    /// `size * size` raw module bytes (value and type bits) of the candidate, row-major
+    pub modules: Vec<u8>,
+}
+
+thread_local! {
+    static SINK: RefCell<Option<Vec<Candidate>>> = const { RefCell::new(None) };
+}
+
+/// Starts recording on the current thread (drops anything recorded before).
+pub fn start() {
+    SINK.with(|s| *s.borrow_mut() = Some(Vec::new()));
+}
+
+/// Stops recording on the current thread and returns what was recorded since `start`.
+pub fn take() -> Vec<Candidate> {
+    SINK.with(|s| s.borrow_mut().take().unwrap_or_default())
+}
+
+pub(crate) fn record_candidate(mask: Mask, score: u32, qr: &QRCode) {
+    SINK.with(|s| {
+        if let Some(sink) = s.borrow_mut().as_mut() {
+            let n = qr.size;
+            sink.push(Candidate {
+                mask,
+                score,
+                size: n,
+                modules: qr.data[..n * n].iter().map(|m| m.0).collect(),
+            });
+        }
+    });
+}
